@@ -38,6 +38,15 @@ CLAIMED = {
                 note='The heap is pointer-rich, so operation/target/argument are finite choices enumerated exhaustively; the solver decides index arithmetic and text equality '
                      '(stated in the evidence). Arguments are detached nodes (property scope); failed edits end the history. Attribute-held fragments are outside the claim.',
                 ref='DESIGN.md section 5 C06'),
+    'C08': dict(level='model_checking',
+                text='Bounded exhaustive: roman/Roman numerals for every value in the stated range (one path per numeral, decoded by an independent reader), Alph/alph 1..26, '
+                     'arabic for a symbolic range; every acyclic reset graph over <= 3 (thorough 4) counters declared with \\newcounter{x}[y] x all histories of 3 (4) '
+                     'step/set/add/refstep operations written as LaTeX source with symbolic operands vs a transitive-reset model; nested \\the formats with Roman/alph parts and '
+                     'trimLeft; article/book skeletons (sections with a symbolic star character, equations, captions, nested enumerate, \\setcounter with a symbolic value, '
+                     '\\appendix) for every numbering depth: each numbered node carries exactly the number LaTeX\'s rules give.',
+                note='Trusted: z3, AST rewrite, the numeral readers and the transitive-reset/numbering reference. Ownership of counters by package macros beyond the skeleton '
+                     'constructs (amsthm, eqnarray rows, \\nonumber) is outside the claim; Alph of 0 is outside the claimed range.',
+                ref='DESIGN.md section 5 C08'),
     'C15': dict(level='model_checking',
                 text='Bounded exhaustive over request histories of the real generator through its call interface: 7 templates of the documented grammar x histories of 2-4 '
                      '(thorough 4-6) requests x every presence pattern of the bindings (symbolic booleans) x ALL binding values of bounded length over {a,b,blank,/} (symbolic: '
